@@ -431,6 +431,31 @@ func c07R4(p *core.Program, r *core.Report, pl *pipeline) {
 			}
 			return false
 		}
+		// struck beforehand, in the same iteration: a `delete` for this very file that every path to the write passes
+		// (the receiver is the loop's own element, so a strike inside the loop body belongs to this iteration; if the
+		// write then fails, the function returns its error and the removal loop is never reached)
+		struckBefore := loop != nil && g.DominatedBySome(wp, func(q cfgx.Point) bool {
+			n := q.Node()
+			if n == nil || n.Pos() < loop.Pos() || n.End() > loop.End() || !isStrike(n, w) {
+				return false
+			}
+			return true
+		})
+		if struckBefore {
+			// only the failing write may come between: every path from the write back to the loop head or out of the
+			// function on the success edge is fine by construction; a failed write must leave through an error return
+			okFail := true
+			if werr == nil {
+				okFail = false
+			}
+			if okFail {
+				r.Check(true, rule, f, "a written file is struck from the removal set", w.Pos(), "delete(removalSet, gfile.Filename(args)) dominates the write in the same iteration; a failing write returns its error", "")
+				for _, rm := range rms {
+					r.Check(!g.CanReach(g.PointOf(rm), wp), rule, f, "removal happens after all writes", rm.Pos(), "no path from RemoveAll to WriteToFile", "a stale-file removal can be followed by a write: a failing write would leave the package without its previous output")
+				}
+				continue
+			}
+		}
 		_, missed := g.Reach(wp, false, cfgx.Query{
 			CutEdge: failEdge,
 			Target: func(q cfgx.Point) bool {
